@@ -29,4 +29,7 @@ def invertE (x m : Int) : Except TErr Int :=
   | .error e => .error (ofNumTh e)
   | .ok r => .ok r
 
+/-- `x ^ y` for x, y ≥ 0 (bitmasks) -/
+def pyXor (a b : Int) : Int := ((a.toNat ^^^ b.toNat : Nat) : Int)
+
 end MpycV.PyPoly
